@@ -1,5 +1,5 @@
-import AiocoapModel.Basic.Bytes
-/-! Line protocol for C04 (not built yet). -/
+import AiocoapModel.Driver.MsgLayer
+/-! C04 is decided on the shared message-layer model. -/
 namespace Aiocoap
-def handleC04 (_args : List String) : String := "out-of-model"
+def handleC04 (args : List String) : String := MsgLayer.handleMsgLayer args
 end Aiocoap
